@@ -579,8 +579,13 @@ class SymExec:
                         continue
                     if old is None:
                         if v in expr.free_symbols:
-                            raise Undecided(f"cell {k}{list(idx)} written in a loop over {v} without being indexed by it")
-                        continue
+                            # accumulation onto the cell's initial content (never initialised in this function)
+                            if isinstance(b, Arr):
+                                old = b.generic(idx) if b.generic is not None else b.fn(*idx)
+                            else:
+                                raise Undecided(f"cell {k}{list(idx)} written in a loop over {v} without being indexed by it")
+                        else:
+                            continue
                     d = sp.expand(expr - old)
                     if old.free_symbols & d.free_symbols and _depends_on_expr(d, old):
                         raise Undecided(f"non-additive accumulation into {k}{list(idx)}")
